@@ -33,6 +33,8 @@ PATTERNS = [
 STATEMENTS = [
     "foo(1);", "bar(1);", "foo(1, 2);", "bar(x, y);", "let a = 1;", "let b = 2;", "c + d;", "a + b;",
     "'t';", "'s';", "class B { n() {} }", "function g() { return 2 }", "x.y;", "[1, 2];", "foo(/*c*/ 1);", "f(1)",
+    # same named tokens, different unnamed keyword: matches `let a = ..` under ast/relaxed/signature
+    "const a = 1;", "var a = 1",
 ]
 
 
@@ -167,7 +169,7 @@ def main(argv):
     coverage = {
         "evaluations": stats["pairs"],
         "distinct_nontrivial": stats["pairs_match_without_literal"],
-        "rule": "CLI layer: every (pattern, strictness[, selector]) of a 12-pattern list x 5 strictness levels, run with `ast-grep run -p` and `ast-grep scan -r` over a directory holding every source of <= 2 statements from a 16-statement alphabet (thorough: plus all triples over 8); one evaluation = one (front end, pattern, strictness, file) comparison of the reported match ranges with the library's find_all on the same bytes; distinct_nontrivial = (front end, pattern, strictness, file) pairs where the library finds a match although the pattern's longest literal does not occur in the file (the case the substring prefilter can get wrong)",
+        "rule": "CLI layer: every (pattern, strictness[, selector]) of a 12-pattern list x 5 strictness levels, run with `ast-grep run -p` and `ast-grep scan -r` over a directory holding every source of <= 2 statements from an 18-statement alphabet (thorough: plus all triples over 8); one evaluation = one (front end, pattern, strictness, file) comparison of the reported match ranges with the library's find_all on the same bytes; distinct_nontrivial = (front end, pattern, strictness, file) pairs where the library finds a match although the pattern's longest literal does not occur in the file (the case the substring prefilter can get wrong)",
         "samples": samples,
         "exhaustive": True,
         "cli_runs": stats["cli_runs"], "files": len(names), "pairs_with_match": stats["pairs_with_match"],
